@@ -125,12 +125,15 @@ def run(ctx):
 
     # ------------------------------------------------------------------ single requests
     singles = []        # (pat, line, flags, kind)
+    fn_reqs = []        # (pat, line, flags, n): the same question with group count n instead of 3
     if ctx.replay:
         rp = json.load(open(ctx.replay))
         for r in rp.get('input', []):
             w = r.split()
             if len(w) == 4 and w[0] == 'f':
                 singles.append((vlib.unhx(w[1]), vlib.unhx(w[2]), int(w[3]), 'replay'))
+            if len(w) == 5 and w[0] == 'fn':
+                fn_reqs.append((vlib.unhx(w[1]), vlib.unhx(w[2]), int(w[3]), int(w[4])))
     else:
         for fn in sorted(glob.glob(os.path.join(vlib.VERIF, 'corpus', 'C12-*.json'))):
             for r in json.load(open(fn)).get('requests', []):
@@ -153,6 +156,26 @@ def run(ctx):
                 mid = lit.swapcase() if rng.chance(1, 3) else lit
                 line = pre + mid + post if rng.chance(3, 4) else mid + post if rng.chance(1, 2) else pre + mid
             singles.append((pat, line + b'\n', rng.below(8), 'random simple'))
+        # bytes at the edges of isword()'s classes (isalnum, '_', > 127) next to \< and \>: the case split of
+        # TrRstr.tr_rstr_isword / RstrDefs.isword
+        edge = [b'/', b'0', b'9', b':', b'@', b'A', b'Z', b'[', b'^', b'_', b'`', b'a', b'z', b'{', b'~', b'\x7f', b'\xc2\x80', b' ']
+        for i in range(800 if ctx.quick else 8000):
+            lit = b''.join(rng.choice([b'a', b'0', b'_', b'Z', b'-', b'\x7f']) for _ in range(rng.choice([0, 0, 1, 2])))
+            k = rng.choice([4, 8, 12, 5, 9, 13, 6, 10, 14])        # at least one of \< \>
+            line = b''.join(rng.choice(edge) for _ in range(rng.choice([1, 2, 3, 4])))
+            if lit and rng.chance(1, 2):
+                j = rng.below(len(line) + 1)
+                line = line[:j] + lit + line[j:]
+            try:
+                line.decode('utf-8')
+            except UnicodeDecodeError:
+                continue
+            singles.append((mkpat(k, lit), line + b'\n', rng.below(8), 'word-class edges'))
+        # group counts 0..3 (the sweep and the other requests always pass 3)
+        for (p_, l_, f_, k_) in singles[:(700 if ctx.quick else 7000)]:
+            if k_ in ('corpus', 'random simple'):
+                for n_ in (0, 1, 2):
+                    fn_reqs.append((p_, l_, f_, n_))
         # patterns with operators: must never take the fast path
         ops = [b'.', b'*', b'+', b'?', b'[a]', b'[', b'{2}', b'{', b'(a)', b'(', b')', b'|', b'^', b'$', b'\\', b'\\.', b'\\<', b'\\>', b'\\$', b'\\^', b'\\\\', b'a|b', b'a^b']
         nops = 1500 if ctx.quick else 15000
@@ -176,6 +199,8 @@ def run(ctx):
     reqs = ['f %s %s %d' % (hx(p), hx(l), f) for p, l, f, _ in singles]
 
     def run_probe(exe, lines, what):
+        if not lines:
+            return []
         rc, out, err = vlib.run_lines(exe, lines, timeout=1500)
         if rc != 0 or len(out) != len(lines):
             # find the request on which the process died
@@ -192,7 +217,7 @@ def run(ctx):
                 res.violation({'what': 'plain and sanitized builds answer differently (undefined behaviour)', 'input': [r], 'plain': a, 'asan': b})
                 break
     out_m = None
-    if model:
+    if model and reqs:
         rc, out_m, err = vlib.run_lines(model, reqs, timeout=1500)
         if rc != 0 or len(out_m) != len(reqs):
             res.disagree({'what': 'model driver: rc=%d, %d answers for %d requests' % (rc, len(out_m), len(reqs)), 'stderr': err[-1000:]})
@@ -237,6 +262,40 @@ def run(ctx):
             res.count('discarded (depth cut)')
     for s in singles[:600:131]:
         res.sample({'pattern': s[0].decode('utf-8', 'replace'), 'line': s[1].decode('utf-8', 'replace'), 'flags': s[2], 'kind': s[3]})
+
+    # ------------------------------------------------------------------ other group counts
+    if fn_reqs:
+        SENT = -7
+        lines = ['fn %s %s %d %d' % (hx(p_), hx(l_), f_, n_) for p_, l_, f_, n_ in fn_reqs]
+        out_n = run_probe(probe_asan, lines, 'probe_rstr (ASan/UBSan), group counts')
+        for (p_, l_, f_, n_), req, ans in zip(fn_reqs, lines, out_n):
+            res.evaluations += 1
+            res.count('group count %d' % n_)
+            d = parse_kv(ans)
+            if d.get('path') != 's' or d.get('cut', '0') != '0' or d.get('rset', 'x') == 'x':
+                continue
+            try:
+                p_.decode('utf-8'); l_.decode('utf-8')
+            except UnicodeDecodeError:
+                continue
+            def cells(v):
+                rc, cs = v.split(':')
+                return int(rc), [int(x) for x in cs.split(',')]
+            frc, fc = cells(d['rstr'])
+            erc, ec = cells(d['rset'])
+            what = None
+            if frc < 0 and any(c != SENT for c in fc):
+                what = 'fast path writes to the group array although nothing was found'
+            elif any(c != SENT for c in fc[2 * n_:]):
+                what = 'fast path writes beyond the %d groups it was asked for' % n_
+            elif (frc, fc) != (erc, ec):
+                what = 'fast path and general engine fill the group array differently for group count %d' % n_
+            if what:
+                res.violation({'what': what, 'input': [req], 'pattern': p_.decode('utf-8', 'replace'), 'line': l_.decode('utf-8', 'replace'),
+                               'flags': f_, 'groups': n_, 'expected': 'general engine: rc=%d cells=%s' % (erc, ec),
+                               'observed': 'fast path: rc=%d cells=%s' % (frc, fc)})
+            elif frc == 0:
+                res.nontriv(req)
 
     # ------------------------------------------------------------------ exhaustive small scope
     if not ctx.replay:
